@@ -12,7 +12,7 @@ RULE = ('correspondence (extracted model vs real library, both recording targets
         'table Gen/FontTable.v against the real constants: all 292 built-in fonts (10 geometry fields) x index of EVERY mapped character + 12 unmapped ones, '
         'all 14 mapping expansions. search (real built-in fonts only, reference = font.image.pixel() of the cell derived from the public glyph_mapping.index): '
         'p_c14_font = every font x every mapped character + control/non-BMP characters x 3 colour modes, one glyph at a time, plus index = position, '
-        'distinct indices, cell inside the atlas; p_c14_str = random lines x 16 colour/decoration combinations x baselines on random built-in fonts; p_c14_synth = the same reference on the synthetic custom fonts (spacing, odd atlas row lengths, cells outside the atlas draw nothing).')
+        'distinct indices, cell inside the atlas; p_c14_codepage = every mapping against the standard code page (Python codecs as independent reference): glyph index of every defined character; p_c14_str = random lines x 16 colour/decoration combinations x baselines on random built-in fonts; p_c14_synth = the same reference on the synthetic custom fonts (spacing, odd atlas row lengths, cells outside the atlas draw nothing).')
 EXHAUSTIVE = {'quick': False, 'thorough': False}
 ASSUMPTIONS = ['draw_ok: |position| <= 2^28 and x + n*(cw+spacing) <= 2^28; font_ok: all font fields non-negative (u32) with heights/offsets <= 2^28 '
                '(the range in which i32/u32 arithmetic of the implementation cannot wrap or saturate; the model is unbounded Z)',
@@ -170,8 +170,33 @@ def cases(tier, rng):
         yield J('c14_ds', *f, *style(rng, k % 16), x, y, rng.randrange(4), repl, lst(data), lst(text_from(rng, chars)))
 
 
+def codepage(name):
+    """(glyph index, code point) for every byte the standard code page defines: 0x20..0x7F, then 0xA0.. (independent reference: Python codecs)"""
+    if name == 'ASCII':
+        return [(b - 0x20, b) for b in range(0x20, 0x80)]
+    if name.startswith('ISO_8859_'):
+        codec, hi = 'iso8859_' + name.split('_')[2], range(0xA0, 0x100)
+    elif name == 'JIS_X0201':
+        codec, hi = 'shift_jis', range(0xA1, 0xE0)
+    else:
+        return None
+    out = [(b - 0x20, b) for b in range(0x20, 0x80)]
+    for b in hi:
+        try:
+            out.append((b - 0xA0 + 0x60, ord(bytes([b]).decode(codec))))
+        except UnicodeDecodeError:
+            pass                                   # position not defined by the standard
+    return out
+
+
 def search(tier, rng):
     maps, fonts = table()
+    for name, _ in maps:
+        cp = codepage(name)
+        if cp is None:
+            yield J('p_c14_codepage', name, 'UNKNOWN-CODE-PAGE')   # a new mapping needs a reference here: fail closed
+        else:
+            yield J('p_c14_codepage', name, len(cp) * 2, *[v for pr in cp for v in pr])
     for name, _ in fonts:
         yield J('p_c14_font', name, rng.randrange(-30, 31), rng.randrange(-30, 31))
     n = 3000 if tier == 'quick' else 60000
